@@ -972,7 +972,13 @@ impl ErasedNode for Node {
         } else if !self.is_necessary() {
             NodeUpdateDelayed::Unnecessary
         } else {
-            match self.value_as_any().is_some() {
+            // Handlers run after the stabilisation number has been bumped, so a node whose value
+            // changed during the stabilisation that just finished has changed_at + 1 == now.
+            // Anything else is queued only because an observer or handler was added.
+            let changed_now = self.state_opt().map_or(true, |t| {
+                self.changed_at.get().add1() == t.stabilisation_num.get()
+            });
+            match self.value_as_any().is_some() && changed_now {
                 true => NodeUpdateDelayed::Changed,
                 false => NodeUpdateDelayed::Necessary,
             }
